@@ -391,6 +391,33 @@ func buildFaultCases(r *core.Run, rng *rand.Rand, onlyBig bool) (cases []faultCa
 				in.Data = nd
 				addCase(in, -1, "EOF", fmt.Sprintf("%s := %s (field at %d, %d bytes)", f.Name, m.Class, f.Off, f.Size), uint32(fi))
 				nplans++
+				if !onlyBig || f.Kind == "magic" || f.Kind == "data" || f.Kind == "type" {
+					continue
+				}
+				// consistent lies: the enclosing structures declare room for the inflated value
+				// (nearest enclosing size field, then all of them), so that a clamp against the
+				// DECLARED remainder of the parent does not hide a file-driven allocation
+				var enc []gen.Field
+				for _, g := range b.fs {
+					if g.Kind == "size" && g.Size >= 4 && g.Off < f.Off {
+						if n := int(g.Get(b.in.Data)); n > 0 && f.Off < g.Off+n {
+							enc = append(enc, g)
+						}
+					}
+				}
+				for k := 1; k <= len(enc); k++ {
+					if k != 1 && k != len(enc) {
+						continue
+					}
+					d2 := nd
+					for _, g := range enc[len(enc)-k:] {
+						d2 = g.Put(d2, 1<<30)
+					}
+					in2 := b.in
+					in2.Data = d2
+					addCase(in2, -1, "EOF", fmt.Sprintf("%s := %s and its %d enclosing size field(s) := 2^30", f.Name, m.Class, k), uint32(fi))
+					nplans++
+				}
 			}
 		}
 	}
